@@ -41,6 +41,7 @@ namespace Srtla.Props.C12
 open Srtla.Select Srtla.Conn Srtla
 
 variable {F : Type} [Scalar F]
+variable {fa : List (Nat × Nat)}
 
 /-- **Frame**: the call returns as many links as it was given, in the same order, and the
 projection of every link onto its liveness / accounting fields is unchanged. -/
@@ -287,10 +288,10 @@ theorem C12_liveAcct_spec (l : FLink F) :
 /-- What forwarding a datagram on a link is (`forward_via_connection`): queue it; on reaching the batch
 threshold drain the queue (`take_batch`: registers the tracked packets, stamps `last_sent`); if that send
 fails (an injected failure pending for the conn id) tear the link down (`mark_for_recovery`). -/
-theorem C12_fwdLink_spec (l : FLink F) (pkt : Link.Bytes) (seq : Option Nat) (now : Nat) (fn : List Nat) :
-    (Hk.fwdLink l pkt seq now fn).1 =
+theorem C12_fwdLink_spec (fa : List (Nat × Nat)) (l : FLink F) (pkt : Link.Bytes) (seq : Option Nat) (now : Nat) (fn : List Nat) :
+    (Hk.fwdLink fa l pkt seq now fn).1 =
       if (l.queueDataPacket pkt seq now).2 = true then
-        if (sendConnectionBatch (l.queueDataPacket pkt seq now).1 now fn).2.2.1 = true
+        if (sendConnectionBatch fa (l.queueDataPacket pkt seq now).1 now fn).2.2.1 = true
         then ((l.queueDataPacket pkt seq now).1.takeBatch now).1
         else ((l.queueDataPacket pkt seq now).1.takeBatch now).1.markForRecovery
       else (l.queueDataPacket pkt seq now).1 := by
@@ -328,13 +329,13 @@ theorem C12_frame_client (s : Sys F) (pkt : Sys.Bytes) (now j : Nat) (l l' : FLi
     (hl : s.links[j]? = some l) (hl' : (step s (.client now pkt)).1.links[j]? = some l') :
     (clientTarget s pkt now ≠ some j ∧ liveAcct l' = liveAcct l) ∨
     (clientTarget s pkt now = some j ∧
-      liveAcct l' = liveAcct (Hk.fwdLink l pkt (Codec.getSrtSequenceNumberS pkt) now s.failNext).1) ∨
+      liveAcct l' = liveAcct (Hk.fwdLink s.failAfter l pkt (Codec.getSrtSequenceNumberS pkt) now s.failNext).1) ∨
     (clientTarget s pkt now ≠ some j ∧ pkt ≠ [] ∧ s.reg.hasConnected = true ∧ s.cfg.stallDeselect = true ∧
       (Codec.getSrtSequenceNumberS pkt).isSome = true ∧ (clientTarget s pkt now).isSome = true ∧
       l.core.connected = true ∧
       (l'.core.connected = false ∨ l'.latchedSince ≠ 0 ∨ l'.silencePulled = true) ∧
       ∃ fn, fn ⊆ s.failNext ∧ (∀ a, fn.count a ≤ s.failNext.count a) ∧
-        liveAcct l' = liveAcct (Hk.fwdLink l pkt (Codec.getSrtSequenceNumberS pkt) now fn).1) := by
+        liveAcct l' = liveAcct (Hk.fwdLink s.failAfter l pkt (Codec.getSrtSequenceNumberS pkt) now fn).1) := by
   cases client_liveAcct s pkt now j l l' hl hl' with
   | idle ht h => exact .inl ⟨ht, h⟩
   | target ht h => exact .inr (.inl ⟨ht, h⟩)
@@ -354,9 +355,9 @@ theorem C12_guard_decides_only_the_route (s : Sys F) (b : Bool) (pkt : Sys.Bytes
     (ht : clientTarget s pkt now = some j ↔ clientTarget (withGuard b s) pkt now = some j) :
     liveAcct l₁ = liveAcct l₂ ∨
     (s.cfg.stallDeselect = true ∧ clientTarget s pkt now ≠ some j ∧
-      ∃ fn, fn ⊆ s.failNext ∧ liveAcct l₁ = liveAcct (Hk.fwdLink l pkt (Codec.getSrtSequenceNumberS pkt) now fn).1) ∨
+      ∃ fn, fn ⊆ s.failNext ∧ liveAcct l₁ = liveAcct (Hk.fwdLink s.failAfter l pkt (Codec.getSrtSequenceNumberS pkt) now fn).1) ∨
     (b = true ∧ clientTarget (withGuard b s) pkt now ≠ some j ∧
-      ∃ fn, fn ⊆ s.failNext ∧ liveAcct l₂ = liveAcct (Hk.fwdLink l pkt (Codec.getSrtSequenceNumberS pkt) now fn).1) := by
+      ∃ fn, fn ⊆ s.failNext ∧ liveAcct l₂ = liveAcct (Hk.fwdLink s.failAfter l pkt (Codec.getSrtSequenceNumberS pkt) now fn).1) := by
   have hl2 : (withGuard b s).links[j]? = some l := hl
   cases client_liveAcct s pkt now j l l₁ hl h₁ with
   | probe ht1 _ _ hon _ _ _ _ h =>
@@ -501,14 +502,14 @@ theorem C12_frame_run (s : Sys F) (pre : List Ev) (e : Ev) (j : Nat) (l l' : FLi
     (∀ now pkt, e = .client now pkt →
       (clientTarget (after s pre) pkt now ≠ some j ∧ liveAcct l' = liveAcct l) ∨
       (clientTarget (after s pre) pkt now = some j ∧
-        liveAcct l' = liveAcct (Hk.fwdLink l pkt (Codec.getSrtSequenceNumberS pkt) now (after s pre).failNext).1) ∨
+        liveAcct l' = liveAcct (Hk.fwdLink (after s pre).failAfter l pkt (Codec.getSrtSequenceNumberS pkt) now (after s pre).failNext).1) ∨
       (clientTarget (after s pre) pkt now ≠ some j ∧ pkt ≠ [] ∧ (after s pre).reg.hasConnected = true ∧
         (after s pre).cfg.stallDeselect = true ∧
         (Codec.getSrtSequenceNumberS pkt).isSome = true ∧ (clientTarget (after s pre) pkt now).isSome = true ∧
         l.core.connected = true ∧
         (l'.core.connected = false ∨ l'.latchedSince ≠ 0 ∨ l'.silencePulled = true) ∧
         ∃ fn, fn ⊆ (after s pre).failNext ∧ (∀ a, fn.count a ≤ (after s pre).failNext.count a) ∧
-          liveAcct l' = liveAcct (Hk.fwdLink l pkt (Codec.getSrtSequenceNumberS pkt) now fn).1)) ∧
+          liveAcct l' = liveAcct (Hk.fwdLink (after s pre).failAfter l pkt (Codec.getSrtSequenceNumberS pkt) now fn).1)) ∧
     ((∀ now pkt, e ≠ .client now pkt) →
       ∀ b, (step (withGuard b (after s pre)) e).1.links[j]? = some l') := by
   rw [after_snoc] at hl'
